@@ -17,15 +17,17 @@ def st0 : St :=
   { s with lastPresent := false }
 
 def entryName : Nat → String
-  | 1 => "g" | 2 => "g2" | n => toString n
+  | 1 => "g" | 2 => "g2" | 3 => "x" | n => toString n
 
 def digest (s : St) : String :=
   let al := ",".intercalate (s.mem.allow.map entryName)
   s!"al=[{al}] inv={s.mem.invoices} hwm={s.mem.hwm} chans={s.mem.stubs.length + 1}"
 
 def kind? : String → Option (List (Option Nat))
-  | "g" => some [some 1] | "g2" => some [some 2] | "b" => some [none]
-  | "m" => some [some 2, none] | "gg" => some [some 1, some 2] | _ => none
+  | "g" => some [some 1] | "g2" => some [some 2] | "x" => some [some 3] | "b" => some [none]
+  | "m" => some [some 2, none] | "gg" => some [some 1, some 2]
+  | "gx" => some [some 1, some 3] | "xg" => some [some 3, some 1]
+  | "g2g" => some [some 2, some 1] | "ggd" => some [some 1, some 1] | _ => none
 
 def alop? : String → Option AlOp
   | "add" => some .add | "set" => some .set | "rm" => some .rm | _ => none
